@@ -389,11 +389,14 @@ class FeatureModel(VariabilityModel):
             return []
         if feature is None:
             feature = self.root
+        # Pre-order traversal with an explicit stack (no recursion: the depth of the tree is not bounded)
         relations = []
-        for relation in feature.relations:
+        pending = list(reversed(feature.relations))
+        while pending:
+            relation = pending.pop()
             relations.append(relation)
-            for _feature in relation.children:
-                relations.extend(self.get_relations(_feature))
+            for _feature in reversed(relation.children):
+                pending.extend(reversed(_feature.relations))
         return relations
 
     def get_features(self) -> list["Feature"]:
